@@ -1,60 +1,55 @@
-import OxiVerif.Model.C01Xref
+import OxiVerif.Lemmas.C01Lexer
+import OxiVerif.Lemmas.C01Graph
 /-!
 # C01 — reading any byte sequence never crashes, hangs or exhausts memory
 
 /- FULL (the property, on the modelled kernels): for every kernel `k` of `Model/C01*.lean` and every
    input `x` over the full machine range, `(k x).fine = true` (a value or an error — never a panic,
    never a divergence), every self-recursive function reaches a call depth bounded by a constant,
-   and no allocation is requested whose size is not bounded by the input length.
+   and no allocation is requested whose size is not bounded by the input length or an explicit cap.
    This is FALSE of the current code for the kernels listed below; for each of them the exact
    characterisation `k x = panic ↔ P x` (or the unbounded-depth / divergence / unbounded-allocation
-   family) is proved together with a kernel-checked witness, and the positive statement is proved
-   under the complementary hypothesis (`…_partial`).  For the other kernels the full statement is
-   proved.  The whole parser (≈ 25 k lines: recovery, reconstruction, JBIG2/DCT/CCITT, fonts, the
+   family) is proved together with a kernel-checked witness (`C01_witness_…`).  For the other
+   kernels the full statement is proved (`C01_lex_*`, `C01_prev_*`, `C01_flatten_*`,
+   `C01_read_to_end_limited`, `C01_png_rows_*`).
+   The whole parser (≈ 25 k lines: recovery, reconstruction, JBIG2/DCT/CCITT, fonts, the
    allocator) is NOT modelled; it is covered by the exploration stream of the harness only. -/
 -/
 namespace OxiVerif.C01
+open Outcome
 
 /-! ## ASCII85 group value (filters.rs:688-692, 728-732) -/
 
-/-- spec-side value of a five-character group -/
+/-- exact characterisation, for a group of ANY length and ANY byte values: the `u32` group
+computation panics iff the base-85 value does not fit `u32` -/
+theorem C01_a85_group_panic_iff (g : List Nat) :
+    (groupValue g).isPanic = true ↔ 2 ^ 32 ≤ gsum 0 g := by
+  have := (groupSum_spec g 0 0 (by decide)).1
+  simpa [groupValue, U32] using this
+
+/-- …and when it fits, the computation returns exactly that value -/
+theorem C01_a85_group_value (g : List Nat) (h : gsum 0 g < 2 ^ 32) :
+    groupValue g = .ok (gsum 0 g) := by
+  have := (groupSum_spec g 0 0 (by decide)).2
+  simpa [groupValue, U32] using this (by simpa [U32] using h)
+
+/-- the value of a five-character group in the usual notation -/
 def a85Val (c0 c1 c2 c3 c4 : Nat) : Nat :=
   (c0 - 33) * 85 ^ 4 + (c1 - 33) * 85 ^ 3 + (c2 - 33) * 85 ^ 2 + (c3 - 33) * 85 + (c4 - 33)
 
-/-- exact characterisation: the group computation panics iff the base-85 value does not fit `u32` -/
-theorem C01_a85_group_panic_iff (c0 c1 c2 c3 c4 : Nat)
-    (h0 : c0 ≤ 117) (h1 : c1 ≤ 117) (h2 : c2 ≤ 117) (h3 : c3 ≤ 117) (h4 : c4 ≤ 117) :
-    (groupValue [c0, c1, c2, c3, c4]).isPanic = true ↔ 2 ^ 32 ≤ a85Val c0 c1 c2 c3 c4 := by
-  simp only [groupValue, groupSum, mulU, addU, pow85, U32, a85Val]
-  constructor
-  · intro h
-    repeat' split at h
-    all_goals simp_all [Outcome.isPanic, Bind.bind, Outcome.bind]
-    all_goals omega
-  · intro h
-    repeat' split
-    all_goals simp_all [Outcome.isPanic, Bind.bind, Outcome.bind]
-    all_goals omega
+theorem gsum_five (c0 c1 c2 c3 c4 : Nat) : gsum 0 [c0, c1, c2, c3, c4] = a85Val c0 c1 c2 c3 c4 := by
+  simp [gsum, pow85, a85Val]; omega
 
-/-- …and when it does not panic it returns exactly that value -/
-theorem C01_a85_group_value (c0 c1 c2 c3 c4 : Nat)
-    (h : a85Val c0 c1 c2 c3 c4 < 2 ^ 32) :
-    groupValue [c0, c1, c2, c3, c4] = .ok (a85Val c0 c1 c2 c3 c4) := by
-  simp only [groupValue, groupSum, mulU, addU, pow85, U32, a85Val] at *
-  repeat' split
-  all_goals simp_all [Bind.bind, Outcome.bind]
-  all_goals omega
-
-example : 2 ^ 32 ≤ a85Val 117 117 117 117 117 := by decide
-example : a85Val 115 56 87 45 33 = 2 ^ 32 - 1 := by decide
+example : 2 ^ 32 ≤ gsum 0 [117, 117, 117, 117, 117] := by decide
+example : gsum 0 [115, 56, 87, 45, 33] = 2 ^ 32 - 1 := by decide
 
 /-- witness: the 7-byte stream `uuuuu~>` panics ("attempt to multiply with overflow") -/
-theorem C01_witness_a85 : a85Decode [117, 117, 117, 117, 117, 126, 62] MAX_DECOMPRESSED_SIZE = .panic .mul := by
-  decide
+theorem C01_witness_a85 :
+    a85Decode [117, 117, 117, 117, 117, 126, 62] MAX_DECOMPRESSED_SIZE = .panic .mul := by decide
 
 /-- witness of the second panic site (`Sum`): `s8W-"~>` is 2^32 exactly -/
-theorem C01_witness_a85_add : a85Decode [115, 56, 87, 45, 34, 126, 62] MAX_DECOMPRESSED_SIZE = .panic .add := by
-  decide
+theorem C01_witness_a85_add :
+    a85Decode [115, 56, 87, 45, 34, 126, 62] MAX_DECOMPRESSED_SIZE = .panic .add := by decide
 
 /-! ## PNG predictor sizing (filters.rs:1830-1868) -/
 
@@ -62,16 +57,23 @@ theorem C01_witness_a85_add : a85Decode [115, 56, 87, 45, 34, 126, 62] MAX_DECOM
 `bpc as usize * colors as usize` overflows (line 1848); everything after it is checked. -/
 theorem C01_pred_sizing_panic_iff (columns bpc colors : Int) (len : Nat) :
     (predSizing columns bpc colors len).isPanic = true ↔ 2 ^ 64 ≤ asU USIZE bpc * asU USIZE colors := by
-  simp only [predSizing, mulU, ckMul, ckAdd, USIZE]
+  unfold predSizing
+  have hU : USIZE = 2 ^ 64 := rfl
   constructor
   · intro h
-    repeat' split at h
-    all_goals simp_all [Outcome.isPanic, Bind.bind, Outcome.bind]
-    all_goals omega
+    rw [isPanic_bind] at h
+    rcases h with h | ⟨prod, _, h⟩
+    · rw [mulU_isPanic] at h; rw [← hU]; exact h
+    · exfalso
+      revert h
+      simp only [Bool.not_eq_true, imp_false]
+      refine not_isPanic_bind _ _ (ckMul_isPanic _ _) (fun samples _ => ?_)
+      refine not_isPanic_bind _ _ (ckMul_isPanic _ _) (fun bits _ => ?_)
+      refine not_isPanic_bind _ _ (ckAdd_isPanic _ _) (fun bits7 _ => ?_)
+      refine not_isPanic_bind _ _ (ckAdd_isPanic _ _) (fun rowSize _ => ?_)
+      split <;> rfl
   · intro h
-    repeat' split
-    all_goals simp_all [Outcome.isPanic, Bind.bind, Outcome.bind]
-    all_goals omega
+    rw [isPanic_bind]; left; rw [mulU_isPanic, hU]; exact h
 
 example : 2 ^ 64 ≤ asU USIZE 8 * asU USIZE (-1) := by decide
 
@@ -82,20 +84,41 @@ theorem C01_witness_pred : applyPredictor [0, 1] 12 none none (some (-1)) = .pan
 
 theorem C01_label_panic_iff (start offset : Nat) :
     (labelNumber start offset).isPanic = true ↔ 2 ^ 32 ≤ start + offset := by
-  simp only [labelNumber, addU, U32]
-  split <;> simp_all [Outcome.isPanic] <;> omega
+  rw [labelNumber, addU_isPanic]; rfl
+
+example : (labelNumber 4294967295 1).isPanic = true := by decide
 
 theorem C01_rc4_panic_iff (keyLen : Nat) : (rc4FirstIndex keyLen).isPanic = true ↔ keyLen = 0 := by
-  simp only [rc4FirstIndex, remU]
-  split <;> simp_all [Outcome.isPanic]
+  unfold rc4FirstIndex remU
+  by_cases h : keyLen = 0 <;> simp [h]
 
 theorem C01_rotate_panic_iff (rotate angle : Int) :
     (rotateCompose rotate angle).isPanic = true ↔
-      ¬ (-(2 ^ 31) ≤ asI U32 rotate + angle ∧ asI U32 rotate + angle ≤ 2 ^ 31 - 1) := by
-  simp only [rotateCompose, addI, I32MIN, I32MAX]
-  split <;> simp_all [Outcome.isPanic, Bind.bind, Outcome.bind]
+      ¬ (I32MIN ≤ asI U32 rotate + angle ∧ asI U32 rotate + angle ≤ I32MAX) := by
+  unfold rotateCompose addI
+  dsimp only
+  by_cases h : I32MIN ≤ asI U32 rotate + angle ∧ asI U32 rotate + angle ≤ I32MAX
+  · rw [if_pos h]
+    constructor
+    · intro hp; cases hp
+    · intro hn; exact absurd h hn
+  · rw [if_neg h]
+    exact ⟨fun _ => h, fun _ => rfl⟩
 
 example : (rotateCompose 2147483647 90).isPanic = true := by decide
+
+/-- object_stream.rs:95 — the first offset alone decides: `first + offset` in `u32` -/
+theorem C01_objstm_first_panic_iff (first o : Int) (rest : List Int) :
+    (addU U32 (asU U32 first) (asU U32 o)).isPanic = true →
+      (objStmOffsets first (o :: rest)).isPanic = true := by
+  intro h
+  rw [objStmOffsets, isPanic_bind]; left; exact h
+
+example : (objStmOffsets 4294967295 [1]).isPanic = true := by decide
+
+/-- text/cmap.rs:781 — a nine-byte code overflows the `usize` fold -/
+theorem C01_witness_cmap_offset :
+    calculateOffset [1, 0, 0, 0, 0, 0, 0, 0, 0] [0, 0, 0, 0, 0, 0, 0, 0, 0] = .panic .mul := by decide
 
 /-! ## `read_to_end_limited` never returns more than `max` bytes -/
 
@@ -120,7 +143,40 @@ theorem C01_read_to_end_limited (max : Nat) (chunks : List Bytes) (out : Bytes)
 example : readToEndLimited 4 [[1, 2], [3]] [] = .ok [1, 2, 3] := by decide
 example : readToEndLimited 2 [[1, 2], [3]] [] = .err := by decide
 
-/-! ## lexer: the self-call depth of `next_token` is unbounded (lexer.rs:150-154) -/
+/-! ## lexer (`Lexer::next_token`, lexer.rs) -/
+
+/-- PROGRESS: on a non-empty input `next_token` consumes at least one byte, whatever it returns -/
+theorem C01_lex_progress (o : LexOpts) (b : Nat) (rest : Bytes) :
+    (nextToken o (b :: rest)).rest.length ≤ rest.length := by
+  have := (nextToken_good o (b :: rest)).1
+  simpa using this
+
+/-- NO PANIC, NO HANG in one call: the result is a token or an error (in particular the `u16` octal
+accumulator of `read_literal_string` and the integer parser cannot overflow) -/
+theorem C01_lex_fine (o : LexOpts) (inp : Bytes) : (nextToken o inp).tok.fine = true :=
+  (nextToken_good o inp).2.2
+
+/-- the token loop terminates on every input: with fuel `length + 1` it is never the fuel that ends
+it, and it never ends in a panic -/
+theorem C01_lex_all_terminates (o : LexOpts) (inp : Bytes) :
+    (lexAll o (inp.length + 1) inp [] 0).2.1.fine = true :=
+  lexAll_fine o (inp.length + 1) inp [] 0 (Nat.lt_succ_self _)
+
+example : (lexAll ⟨false, true⟩ 6 [40, 92, 55, 55, 55] [] 0).2.1 = .err := by decide
+example : (lexAll ⟨true, true⟩ 6 [40, 92, 55, 55, 55] [] 0).1 = [.str [255]] := by decide
+
+/- FULL: ∃ K, ∀ bs, (nextToken o bs).depth ≤ K  — the self-call depth is bounded by a constant.
+   FALSE (lexer.rs:150-154, the `;` arm and the two lenient skips call `next_token` again). -/
+
+/-- partial: the self-call depth is at most linear in the input -/
+theorem C01_lex_depth_partial (o : LexOpts) (inp : Bytes) : (nextToken o inp).depth ≤ inp.length + 1 :=
+  (nextToken_good o inp).2.1
+
+theorem nextToken_semi (o : LexOpts) (rest : Bytes) :
+    nextToken o (59 :: rest) =
+      ⟨(nextToken o rest).tok, (nextToken o rest).rest, (nextToken o rest).depth + 1⟩ := by
+  conv => lhs; unfold nextToken
+  simp [isWs, isDigit, isAlpha]
 
 /-- pumping lemma: every leading `;` adds one activation -/
 theorem nextToken_semis (o : LexOpts) (n : Nat) (rest : Bytes) :
@@ -129,17 +185,15 @@ theorem nextToken_semis (o : LexOpts) (n : Nat) (rest : Bytes) :
   induction n with
   | zero => simp
   | succ k ih =>
-    rw [List.replicate_succ, List.cons_append, nextToken]
-    simp [isWs, isDigit, isAlpha, ih]
-    omega
+    rw [List.replicate_succ, List.cons_append, nextToken_semi, ih]
+    simp; omega
 
 /-- the depth reached on `n` semicolons is `n + 1` … -/
 theorem C01_lex_depth_semis (o : LexOpts) (n : Nat) : (nextToken o (List.replicate n 59)).depth = n + 1 := by
   have := nextToken_semis o n []
-  simp at this
+  simp only [List.append_nil] at this
   rw [this]
-  simp [nextToken]
-  omega
+  simp [nextToken]; omega
 
 /-- … hence no constant bounds it: counter-witness to the FULL depth statement -/
 theorem C01_witness_lex_depth_unbounded (o : LexOpts) : ¬ ∃ K, ∀ bs, (nextToken o bs).depth ≤ K := by
@@ -148,12 +202,88 @@ theorem C01_witness_lex_depth_unbounded (o : LexOpts) : ¬ ∃ K, ∀ bs, (nextT
   rw [C01_lex_depth_semis] at this
   omega
 
+/-- the same family in the content-stream tokenizer (content.rs:510): `n` semicolons, `n + 1`
+activations -/
+theorem C01_witness_content_depth (n : Nat) : cSkipDepth (List.replicate n 59) = n + 1 := by
+  induction n with
+  | zero => rfl
+  | succ k ih => rw [List.replicate_succ, cSkipDepth]; simp [ih]
+
 /-! ## classic xref section: EOF before `trailer` never leaves the loop (xref.rs:781-790) -/
+
+/-- at the end of the file the subsection loop reads an empty line, `continue`s and reads again -/
+theorem C01_xref_eof_diverges (fuel : Nat) (keys : List Nat) : sectionLoop fuel [] keys = .diverge := by
+  cases fuel <;> rfl
 
 theorem C01_witness_xref_hang : classicXref strictOpts [] = .diverge := by decide
 
 theorem C01_witness_xref_hang_after_entries :
     classicXref strictOpts [[48, 32, 49], [48, 48, 48, 48, 48, 48, 48, 48, 48, 48, 32, 54, 53, 53, 51, 53, 32, 102, 32]] = .diverge := by
   decide
+
+/-- `&line[11..16]` on a lossy-decoded line: a non-UTF-8 byte before column 16 shifts the boundaries
+(xref.rs `parse_xref_entry_standard`) -/
+theorem C01_witness_xref_boundary :
+    entryStandard [48, 48, 48, 48, 48, 48, 48, 48, 48, 255, 32, 48, 48, 48, 48, 48, 32, 110] = .panic .boundary := by
+  decide
+
+/-- `first + i` in `u32` (xref.rs, subsection `4294967295 2`) -/
+theorem C01_witness_xref_add :
+    entryLoop 4294967295 2 [[49, 55, 32, 48, 32, 110], [49, 55, 32, 48, 32, 110]] 0 [] = .panic .add := by
+  decide
+
+/-! ## `/Prev` chain: visited set ⇒ termination, one visit per section -/
+
+/-- the walk terminates on EVERY section graph (cycles, self-loops, dangling `/Prev`): with fuel
+`sections + 1` it never runs out of fuel and never panics -/
+theorem C01_prev_terminates (sections : List (Nat × Option Nat)) (start : Nat) :
+    (prevChain sections start).fine = true :=
+  (prevWalk_spec sections (sections.length + 1) (some start) []
+    (by have := unvisited_le sections []; omega)
+    (by have := unvisited_le sections []; simp; omega)).1
+
+/-- …and visits each section at most once -/
+theorem C01_prev_bounded (sections : List (Nat × Option Nat)) (start : Nat) (v : List Nat)
+    (h : prevChain sections start = .ok v) : v.length ≤ sections.length :=
+  (prevWalk_spec sections (sections.length + 1) (some start) []
+    (by have := unvisited_le sections []; omega)
+    (by have := unvisited_le sections []; simp; omega)).2 v h
+
+example : prevChain [(0, some 1), (1, some 0)] 0 = .ok [0, 1] := by decide
+example : prevChain [(0, some 0)] 0 = .ok [0] := by decide
+
+/-! ## `flatten_page_tree`: visited set + explicit stack ⇒ termination; `MAX_PAGES` ⇒ bounded output -/
+
+/-- the loop terminates on EVERY node graph (cyclic `/Kids`, shared kids, dangling references)
+whenever the fuel exceeds the measure "stack height + kids of unvisited nodes", and the page list
+never exceeds the cap -/
+theorem C01_flatten_terminates (maxPages : Nat) (g : List (Nat × PNode)) (rootKids : List Nat) (fuel : Nat)
+    (hf : rootKids.length + pend [] g < fuel) :
+    ∃ s, flattenRun maxPages g fuel ⟨rootKids, [], []⟩ = some s ∧ s.pages.length ≤ maxPages :=
+  flattenRun_spec maxPages g fuel ⟨rootKids, [], []⟩ (by simpa [mu] using hf) (by simp)
+
+/-- each iteration strictly decreases the measure (the step-level statement) -/
+theorem C01_flatten_step_decreases (maxPages : Nat) (g : List (Nat × PNode)) (s s' : FState)
+    (h : flattenStep maxPages g s = some s') : mu g s' < mu g s :=
+  flattenStep_decreases maxPages g s s' h
+
+example : (flattenRun MAX_PAGES [(0, .pages [0, 1]), (1, .page)] 10 ⟨[0], [], []⟩).map (·.pages) =
+    some [1] := by decide
+
+/-! ## stream `/Length`: the allocation request is the declared number, not bounded by the input -/
+
+/- FULL: ∃ B, ∀ len avail n, streamAllocRequest len = ok n → n ≤ B avail  (the request is bounded by a
+   function of the bytes present).  FALSE (objects.rs → lexer.rs `read_bytes`: `vec![0u8; n]`). -/
+
+theorem C01_witness_stream_alloc_unbounded :
+    ¬ ∃ B : Nat → Nat, ∀ (len : Int) (avail n : Nat), streamAllocRequest len = .ok n → n ≤ B avail := by
+  intro ⟨B, h⟩
+  have := h ((B 0 + 1 : Nat) : Int) 0 (B 0 + 1) (by
+    unfold streamAllocRequest
+    rw [if_neg (by omega)]
+    simp)
+  omega
+
+theorem C01_witness_stream_alloc : streamRead (2 ^ 30) (2 ^ 40) 4 = .panic .alloc := by decide
 
 end OxiVerif.C01
